@@ -601,7 +601,8 @@ func main() {
 			visit(a, all || want[k])
 		}
 	}
-	for _, sp := range spkgs {
+	_ = spkgs
+	for _, sp := range prog.AllPackages() {
 		if sp == nil {
 			continue
 		}
@@ -615,8 +616,12 @@ func main() {
 				interesting = true
 			}
 		}
-		// constants and globals of every package of the module
+		// constants and globals of every package of the module (and of contracted dependencies)
+		inModule := strings.HasPrefix(path, "github.com/nspcc-dev/") || interesting
 		for name, m := range sp.Members {
+			if !inModule {
+				break
+			}
 			switch m := m.(type) {
 			case *ssa.NamedConst:
 				c := e.constVal(m.Value)
